@@ -31,7 +31,7 @@ func init() {
 			"each entry tagged by its own required header so that the entry chosen is observable (response without headers, and response carrying every tag header but one: rejected exactly when that entry is selected), other class keys (1XX,3XX,5XX,6XX,2xx,XXX) × boundary codes; " +
 			"(2) 20 header kinds (string, integer, boolean, untyped, arrays of integer/string/boolean/untyped/object/array items, array without items, objects with write-only / read-only properties, described by content) × raw texts chosen for the decoder (signs, leading zeros, base prefixes, underscores, blanks, int64 bounds, the twelve ParseBool words and near-misses, empty and unparsable array items in every position) × required × present/absent × options, a second value of the same header, pairs of failing headers in both name orders, the ignored Content-Type header, a non-canonical declared name; " +
 			"(3) 12 content maps × 17 Content-Type values (registered JSON types, the two text decoders, unregistered types, parameters, a blank before ';', upper case, no slash, empty) × 7 bodies × ExcludeResponseBody; failing body reader; (4) object schemas with all subsets of required ⊆ {a,ro,wo,z} × all key subsets of {a,ro,wo,x} × null/non-null write-only value × additionalProperties {absent,false,schema} × options, at top level, nested under a property, inside an array and under additionalProperties; " +
-			"then a seeded random stream of response maps, headers (kind × listed or free text over the decoder's alphabet), schemas of depth ≤ 3 and schema-directed values (valid and mutated). " +
+			"then a seeded random stream of methods (only the exact HEAD is skipped), option sets (incl. Options == nil and a custom schema-error function), response maps, headers (kind × listed or free text over the decoder's alphabet), schemas of depth ≤ 3 and schema-directed values (valid and mutated). " +
 			"A case is non-trivial when the model reports at least one non-default branch (skip, selection kind, option in effect, header decoding outcome, header/body outcome, decoder kind, schema flags).",
 		Exhaustive: true,
 		Gen:        genC08,
@@ -244,6 +244,12 @@ func runC08(c hx.Case) any {
 		ExcludeResponseBody:         jbool(c, "excludeBody"),
 		ExcludeWriteOnlyValidations: jbool(c, "woOff"),
 		MultiError:                  jbool(c, "multi"),
+	}
+	if jbool(c, "customErr") { // changes the wording of schema errors only
+		opts.WithCustomSchemaErrorFunc(func(err *openapi3.SchemaError) string { return "custom" })
+	}
+	if !jbool(c, "strict") && !jbool(c, "excludeBody") && !jbool(c, "woOff") && !jbool(c, "multi") && !jbool(c, "customErr") && jbool(c, "nilOptions") {
+		opts = nil // input.Options == nil means the defaults
 	}
 	body := jstr(c, "body")
 	in := &openapi3filter.ResponseValidationInput{
@@ -538,6 +544,14 @@ func genC08(ctx *hx.Ctx, emit func(hx.Case)) {
 				emit(c08Case("GET", st, resps, []any{}, "", c08Err, o))
 			}
 			emit(c08Case("HEAD", st, resps, []any{}, "", c08Err, 1))
+			if len(sub) <= 2 {
+				for _, m := range []string{"head", "POST"} {
+					emit(c08Case(m, st, resps, []any{}, "", c08Err, 1))
+				}
+				cn := c08Case("GET", st, resps, []any{}, "", c08Err, 0)
+				cn["nilOptions"] = true
+				emit(cn)
+			}
 			// the response carries every tag header but one: rejected exactly when that entry is the one selected
 			for _, miss := range sub {
 				hd := []any{}
@@ -950,11 +964,13 @@ func c08Random(r *hx.Rng, kinds []c08HK) hx.Case {
 		resps = append(resps, c08Resp(k, hs, content))
 	}
 	status := hx.Pick(r, []int{200, 200, 201, 204, 404, 400, 500, 302, 304, 301, 100, 600, 99})
-	method := "GET"
+	method := hx.Pick(r, []string{"GET", "GET", "GET", "GET", "POST", "DELETE", "OPTIONS", "head", "Head"}) // only the exact "HEAD" is skipped
 	if r.Chance(4) {
 		method = "HEAD"
 	}
 	c := c08Case(method, status, resps, hd, body, bodyDec, 0)
+	c["customErr"] = r.Chance(10)
+	c["nilOptions"] = r.Chance(40) // takes effect when every option is off
 	c["strict"] = r.Chance(40)
 	c["excludeBody"] = r.Chance(10)
 	c["woOff"] = r.Chance(25)
@@ -1085,7 +1101,7 @@ func shrinkC08(c hx.Case) []hx.Case {
 			}
 		}
 	}
-	for _, k := range []string{"strict", "excludeBody", "woOff", "multi", "readFails"} {
+	for _, k := range []string{"strict", "excludeBody", "woOff", "multi", "readFails", "customErr", "nilOptions"} {
 		if jbool(c, k) {
 			x := cloneCase(c)
 			x[k] = false
